@@ -58,7 +58,7 @@ PROPS["C05"] = dict(
         ("src/bigint.rs", "c05/bigint.rs"),
     ],
     kani=[dict(filter_q="c05_q_", filter_t=["c05_q_", "c05_t_"], jobs=14, timeout_q=200, timeout_t=900)],
-    engines=[],
+    engines=[dict(module="mirsmt", func="run_monty")],
     functions=["BigInt::modinv", "bigint::power::modpow"],
     bounds_quick="BigInt modinv/modpow sign placement: 4 sign pairs x operand shapes up to 2 digits x result lengths 0..2; panics",
     outside="Montgomery CIOS values, final-subtraction count, multi-digit exponent schedules, extended Euclid beyond narrow values",
@@ -77,6 +77,7 @@ PROPS["C19"] = dict(
 )
 
 PROPS["C07"] = dict(
+    engines=[dict(module="mirsmt", func="run_bits")],
     inject=[("src/bigint/bits.rs", "c07/bigint_bits.rs"), ("src/biguint/shift.rs", "c07/biguint_shift.rs"),
             ("src/bigint/shift.rs", "c07/bigint_shift.rs"), ("src/bigint.rs", "c07/bit_queries.rs"),
             ("src/biguint/bits.rs", "c07/biguint_bits.rs")],
@@ -173,4 +174,20 @@ PROPS["C12"] = dict(
     bounds_thorough="as quick plus exponents < 2^12, powers of two up to the type width, plain_modpow < 2^12",
     outside="exactness of the multiplications themselves (C02's claim: C12 = schedule o C02); exponents >= 2^12 other than powers of two; multi-digit exponents of plain_modpow (64 heap-allocating steps per digit do not finish)",
     trusted=["homomorphism stubs: <&BigUint as Mul<&BigUint>>::mul and MulAssign<&BigUint> -> tally addition; Rem/RemAssign -> identity (plain_modpow harnesses)"],
+)
+
+PROPS["C02"] = dict(
+    inject=[("src/biguint/multiplication.rs", "c02/multiplication.rs"), ("src/bigint/multiplication.rs", "c02/bigint_mul.rs")],
+    kani=[dict(filter_q="c02_q_", filter_t=["c02_q_", "c02_t_"], jobs=14, timeout_q=300, timeout_t=1200)],
+    engines=[dict(module="mirsmt", func="run_mul")],
+    functions=["mac_with_carry, mul_with_carry (MIR->SMT, full width)", "mac_digit", "mac3 (long-multiplication regime, zero-stripping prologue)", "mul3", "scalar_mul",
+               "impl_mul!/impl_mul_assign! dispatch", "sub_sign"],
+    bounds_quick="word kernels at the full 64-bit width (z3 on the MIR); mac_digit rows of 1..2 digits, long multiplication 1x1..2x2 (2x3, 3x3 thorough), scalar_mul 0..2 digits, "
+                 "dispatch for all zero/single/multi-digit operand classes and value/reference forms, sub_sign up to 3x2 - all with the digit products abstracted by an uninterpreted table",
+    outside="EXACTNESS OF THE KARATSUBA, HALF-KARATSUBA AND TOOM-3 BRANCHES (operands > 32 / > 256 digits; ring reasoning over 64-bit products does not finish even at rescaled thresholds) - a change confined "
+            "to those branches is NOT detected by this check; long multiplication beyond 3x3 digits",
+    trusted=STUBS_ADDSUB + ["contract stub: mac_with_carry/mul_with_carry -> (lo, carry) split of a + P + acc with P an uninterpreted product (P <= (2^64-1)^2, 0*x = 0, 1*x = x); "
+                            "discharged against the real kernels by the MIR->SMT obligations of the same run", "stub: Vec::shrink_to_fit -> no-op"],
+    level_text="bounded model checking of the carry/index/dispatch logic of multiplication with products abstracted, plus SMT proofs of the 64-bit word kernels from their MIR; "
+               "the sub-quadratic algorithms are explicitly outside the claim",
 )
